@@ -5,9 +5,12 @@ import (
 	"fmt"
 	"io"
 	"path/filepath"
+	"sync/atomic"
 
 	"google.golang.org/grpc"
+	"google.golang.org/grpc/codes"
 	"google.golang.org/grpc/metadata"
+	"google.golang.org/grpc/status"
 	"google.golang.org/protobuf/types/known/emptypb"
 
 	pb "github.com/ozontech/seq-db/pkg/storeapi"
@@ -24,6 +27,8 @@ import (
 type mdClient struct {
 	inner pb.StoreApiClient
 	SeqQL *bool
+	// DownForStart: while set, StartAsyncSearch on this host fails as an unreachable host would (the other calls work)
+	DownForStart *atomic.Bool
 }
 
 func (c mdClient) ctx(ctx context.Context) context.Context {
@@ -47,6 +52,9 @@ func (c mdClient) Search(ctx context.Context, in *pb.SearchRequest, o ...grpc.Ca
 	return c.inner.Search(c.ctx(ctx), in)
 }
 func (c mdClient) StartAsyncSearch(ctx context.Context, in *pb.StartAsyncSearchRequest, o ...grpc.CallOption) (*pb.StartAsyncSearchResponse, error) {
+	if c.DownForStart != nil && c.DownForStart.Load() {
+		return nil, status.Error(codes.Unavailable, "verif: host is down")
+	}
 	return c.inner.StartAsyncSearch(c.ctx(ctx), in)
 }
 func (c mdClient) FetchAsyncSearchResult(ctx context.Context, in *pb.FetchAsyncSearchResultRequest, o ...grpc.CallOption) (*pb.FetchAsyncSearchResultResponse, error) {
@@ -64,11 +72,12 @@ type Cluster struct {
 	Stores  [][]*Store // [shard][replica]
 	Ing     *search.Ingestor
 	Clients map[string]pb.StoreApiClient
-	SeqQL   bool // language the stores parse proxy queries with (what the use-seq-ql header would select)
+	Down    map[string]*atomic.Bool // host -> switch "down for StartAsyncSearch"
+	SeqQL   bool                    // language the stores parse proxy queries with (what the use-seq-ql header would select)
 }
 
 func OpenCluster(dir string, shards, replicas int, o Opt) (*Cluster, error) {
-	c := &Cluster{Clients: map[string]pb.StoreApiClient{}}
+	c := &Cluster{Clients: map[string]pb.StoreApiClient{}, Down: map[string]*atomic.Bool{}}
 	hot := &stores.Stores{}
 	for s := 0; s < shards; s++ {
 		var reps []*Store
@@ -81,7 +90,8 @@ func OpenCluster(dir string, shards, replicas int, o Opt) (*Cluster, error) {
 			reps = append(reps, st)
 			host := fmt.Sprintf("store-%d-%d", s, r)
 			hosts = append(hosts, host)
-			c.Clients[host] = mdClient{inner: storeapi.NewClient(st.S), SeqQL: &c.SeqQL}
+			c.Down[host] = &atomic.Bool{}
+			c.Clients[host] = mdClient{inner: storeapi.NewClient(st.S), SeqQL: &c.SeqQL, DownForStart: c.Down[host]}
 		}
 		c.Stores = append(c.Stores, reps)
 		hot.Shards = append(hot.Shards, hosts)
